@@ -10,14 +10,25 @@
      C11-b  a hard pause accepted while a suspension is unreleased, followed by resume(): same cancelled wait_for, the
             helper goes on to _resume_from_suspender although the suspender never released.
    [C11_a_refuted], [C11_b_refuted]: schedules in the class on which the model (agreeing with the recorded real run)
-   breaks [hold_ok].  PARTIAL: outside the classes the end-to-end statement [C11_full] is not proved as one theorem;
-   proved are the steps it is made of, for all states/plans/devices: the accepted request (frame pushed, suspending,
+   breaks [hold_ok].
+
+   END TO END ([C11_hold_ok_all_runs], Proofs/RE_C11.v): for EVERY schedule outside C11-a / C11-b, without
+   impossible-step markers, and inside three explicit decidable conditions, [hold_ok] holds on the whole trace.
+   The conditions are needed: [C11_full] as first stated is false on the model ([C11_full_refuted]: a suspension accepted
+   in the final sleep of `_run`, never released; the next RE(...) call advances its plan -- the real __call__ would make
+   the plan wait for a tripped *installed* suspender, install_suspender is not in Engine/RE.v):
+     call_while_suspended evs = false   no RE(...) call is started while a requested suspension is unreleased;
+     stale_future evs = false           a suspension is not requested with a future that was released before
+                                        ([C11_stale_future_needed]: otherwise the helper's wait_for passes at once);
+     plain_susp_plans tr = true         pre/post plans of suspenders do not issue pause / checkpoint / _start_suspender.
+   Still proved separately, for all states/plans/devices, the steps a suspension is made of: the accepted request (frame pushed, suspending,
    task cancelled, caller not woken), the top of the loop (back to running, next message is _start_suspender),
    _start_suspender (interruption records, then stop() on EVERY moved device, then pause(); the cache goes to the
    helper), the exact message sequence of the helper plan, the wait (a task step before the release is impossible:
    OBad 7; the release enables it), and the replay after `rewindable <was>` (C04). *)
 From Coq Require Import List.
-From BV Require Import Engine.RE Engine.REInst Proofs.RE_Ctl Proofs.RE_Replay Proofs.RE_Susp Proofs.RE_Hold Proofs.RE_Wake Proofs.RE_CtlExamples.
+From BV Require Import Engine.RE Engine.REInst Proofs.RE_Ctl Proofs.RE_Replay Proofs.RE_Susp Proofs.RE_Hold Proofs.RE_Wake Proofs.RE_CtlExamples
+  Proofs.RE_C11 Proofs.RE_C11Ex.
 Import ListNotations.
 
 (* request accepted + top of the loop: the engine reaches `_start_suspender` without touching the plan *)
@@ -98,7 +109,8 @@ Theorem C11_caller_not_woken :
 Proof. exact task_step_wakes. Qed.
 Print Assumptions C11_caller_not_woken.
 
-(* the whole property, outside the two finding classes, on schedules the real engine can produce (no OBad) -- not proved *)
+(* the whole property, outside the two finding classes, on schedules the real engine can produce (no OBad): FALSE as
+   stated ([C11_full_refuted] below); true with the three conditions of [C11_hold_ok_all_runs] *)
 Definition C11_full : Prop :=
   forall (P : Type) (presume : P -> input -> outcome P) (plan_of : nat -> P) (D : Type) (dev : D -> nat -> devmeth -> D * devres)
          (d : D) (paus stag : list nat) (rec : bool) (evs : list event),
@@ -128,3 +140,55 @@ Example C11_b_refuted :
     finding_C11_b evs = true /\ finding_C11_a evs = false /\ no_bad (snd (irun tapes ledger paus stag rec evs)) = true /\
     ~ hold_ok (itrace tapes ledger paus stag rec evs) = true.
 Proof. exact c11_b_refuted. Qed.
+
+(* ------------------------------------------------------------------ end to end (Proofs/RE_C11.v) *)
+Theorem C11_hold_ok_all_runs :
+  forall (P : Type) (presume : P -> input -> outcome P) (plan_of : nat -> P) (D : Type) (dev : D -> nat -> devmeth -> D * devres)
+         (d : D) (paus stag : list nat) (rec : bool) (evs : list event),
+    finding_C11_a evs = false -> finding_C11_b evs = false ->
+    call_while_suspended evs = false -> stale_future evs = false ->
+    no_bad (snd (run P presume plan_of D dev (init P D d paus stag rec) evs)) = true ->
+    plain_susp_plans (trace P presume plan_of D dev (init P D d paus stag rec) evs) = true ->
+    hold_ok (trace P presume plan_of D dev (init P D d paus stag rec) evs) = true.
+Proof. exact hold_ok_all_runs. Qed.
+Print Assumptions C11_hold_ok_all_runs.
+
+(* the statement without the three conditions is false on the model *)
+Theorem C11_full_refuted : ~ C11_full.
+Proof. exact c11_full_refuted. Qed.
+Print Assumptions C11_full_refuted.
+
+(* the hypotheses are met by recorded real runs: a suspension with pre-plan, post-plan and interruption records *)
+Example C11_hold_ok_nonvacuous :
+  check ex_susp_pp_tapes ex_susp_pp_ledger ex_susp_pp_paus ex_susp_pp_stag ex_susp_pp_rec ex_susp_pp_evs ex_susp_pp_obs = true /\
+  finding_C11_a ex_susp_pp_evs = false /\ finding_C11_b ex_susp_pp_evs = false /\
+  call_while_suspended ex_susp_pp_evs = false /\ stale_future ex_susp_pp_evs = false /\
+  no_bad (snd (irun ex_susp_pp_tapes ex_susp_pp_ledger ex_susp_pp_paus ex_susp_pp_stag ex_susp_pp_rec ex_susp_pp_evs)) = true /\
+  plain_susp_plans (itrace ex_susp_pp_tapes ex_susp_pp_ledger ex_susp_pp_paus ex_susp_pp_stag ex_susp_pp_rec ex_susp_pp_evs) = true /\
+  hold_ok (itrace ex_susp_pp_tapes ex_susp_pp_ledger ex_susp_pp_paus ex_susp_pp_stag ex_susp_pp_rec ex_susp_pp_evs) = true /\
+  existsb (fun e => match e with EvReqSuspend 0 true true => true | _ => false end) ex_susp_pp_evs = true /\
+  has_obs (OPlanIn 1000 (Send VNone)) (snd (irun ex_susp_pp_tapes ex_susp_pp_ledger ex_susp_pp_paus ex_susp_pp_stag ex_susp_pp_rec ex_susp_pp_evs)) = true /\
+  has_obs (OPlanIn 1001 (Send VNone)) (snd (irun ex_susp_pp_tapes ex_susp_pp_ledger ex_susp_pp_paus ex_susp_pp_stag ex_susp_pp_rec ex_susp_pp_evs)) = true.
+Proof. vm_compute. repeat split. Qed.
+
+(* ... and the plain suspension of [C11_nonvacuous] *)
+Example C11_hold_ok_nonvacuous_plain :
+  call_while_suspended ex_susp_evs = false /\ stale_future ex_susp_evs = false /\
+  plain_susp_plans (itrace ex_susp_tapes ex_susp_ledger ex_susp_paus ex_susp_stag ex_susp_rec ex_susp_evs) = true.
+Proof. vm_compute. repeat split. Qed.
+
+(* the freshness of the future is needed too: all other hypotheses hold, [hold_ok] fails *)
+Example C11_stale_future_needed :
+  exists tapes evs,
+    finding_C11_a evs = false /\ finding_C11_b evs = false /\ call_while_suspended evs = false /\ stale_future evs = true /\
+    no_bad (snd (irun tapes [] [] [] false evs)) = true /\ plain_susp_plans (itrace tapes [] [] [] false evs) = true /\
+    hold_ok (itrace tapes [] [] [] false evs) = false.
+Proof. exists w_tapes2, w_stale_evs. vm_compute. repeat split. Qed.
+
+(* ... and so is the restriction on pre/post plans: a pre-plan that re-enables rewinding, issues a message and pauses *)
+Example C11_plain_plans_needed :
+  exists tapes evs,
+    finding_C11_a evs = false /\ finding_C11_b evs = false /\ call_while_suspended evs = false /\ stale_future evs = false /\
+    no_bad (snd (irun tapes [] [] [] false evs)) = true /\ plain_susp_plans (itrace tapes [] [] [] false evs) = false /\
+    hold_ok (itrace tapes [] [] [] false evs) = false.
+Proof. exists w_tapes3, w_plain_evs. vm_compute. repeat split. Qed.
